@@ -40,16 +40,17 @@ finish:
 int redirect_init(pipe_type *parent,
                   handle_type *child,
                   REPROC_STREAM stream,
-                  reproc_redirect redirect,
+                  reproc_redirect *redirect,
                   bool nonblocking,
                   handle_type out)
 {
   ASSERT(parent);
   ASSERT(child);
+  ASSERT(redirect);
 
   int r = REPROC_EINVAL;
 
-  switch (redirect.type) {
+  switch (redirect->type) {
 
     case REPROC_REDIRECT_DEFAULT:
       ASSERT(false);
@@ -64,6 +65,10 @@ int redirect_init(pipe_type *parent,
       if (r == REPROC_EPIPE) {
         // Discard if the corresponding parent stream is closed.
         r = redirect_discard(child, stream);
+        if (r >= 0) {
+          // We own the discard handle so make sure `redirect_destroy` closes it.
+          redirect->type = REPROC_REDIRECT_DISCARD;
+        }
       }
 
       if (r < 0) {
@@ -85,19 +90,19 @@ int redirect_init(pipe_type *parent,
       break;
 
     case REPROC_REDIRECT_HANDLE:
-      ASSERT(redirect.handle);
+      ASSERT(redirect->handle);
 
       r = 0;
 
-      *child = redirect.handle;
+      *child = redirect->handle;
       *parent = PIPE_INVALID;
 
       break;
 
     case REPROC_REDIRECT_FILE:
-      ASSERT(redirect.file);
+      ASSERT(redirect->file);
 
-      r = redirect_file(child, redirect.file);
+      r = redirect_file(child, redirect->file);
       if (r < 0) {
         break;
       }
@@ -118,9 +123,9 @@ int redirect_init(pipe_type *parent,
       break;
 
     case REPROC_REDIRECT_PATH:
-      ASSERT(redirect.path);
+      ASSERT(redirect->path);
 
-      r = redirect_path(child, stream, redirect.path);
+      r = redirect_path(child, stream, redirect->path);
       if (r < 0) {
         break;
       }
